@@ -178,3 +178,29 @@ PROPS["C19"] = dict(
                 quick=dict(workers=16, checks=8000, steps=20, watchdog_s=900),
                 thorough=dict(workers=16, checks=600000, steps=20, watchdog_s=7200))],
 )
+
+PROPS["C11"] = dict(
+    level="exploration",
+    engine="coop",
+    technique="deterministic simulation: goroutines racing on the first classification of freshly uncached types under the invisible cooperative scheduler (yield before every sync.Map access), race detector, per-operation comparison with the owning runtime called directly",
+    design_ref="DESIGN.md 4.2, 5 (C11)",
+    level_text=("Seeded search over client scripts and interleavings: the process-wide type cache is emptied before every run and 2..N goroutines call MsgType, Marshal, Unmarshal, Size, "
+                "Clone, Equal (same type, same runtime, cross runtime), Reset, MarshalText and the gRPC codec on values of up to four types (regenerated fast-marshal types and plain "
+                "types of gogo, legacy golang/protobuf v1 and protobuf-go v2) and on unsupported values (nil, struct, pointer to non-message, error, int, typed nil). Every MsgType must "
+                "equal the class the type was built for, every dispatcher result must equal the owning runtime's function (or, for fast-marshal types, the type's own generated method: "
+                "dispatch transparency) applied to a private copy, unsupported values must give the documented error/zero result without panicking, and the race detector must stay silent."),
+    level_note=("Trusted: the runtimes called directly as oracles, protobuf-go reflection for copies and digests. The dispatcher comparison involves no schedule; it is part of this "
+                "workload because the property puts it there. Correctness of generated Marshal/Unmarshal themselves (C04-C07) is not judged: fast-marshal types are compared with their own methods."),
+    needs=["corpus"],
+    rule=("one execution = up to four drawn types with drawn contents, 2..N clients with drawn scripts, a drawn schedule; non-trivial = at least one context switch and two judged operations; "
+          "distinct = hash of types, scripts and schedule"),
+    real=["marshal.go, sizeof.go, message_types.go (sync.Map seam with yields), clone.go, equal.go, reset.go, marshal_text.go, grpc_codec.go", "the three runtimes", "goroutines, race detector"],
+    model=["choice of which goroutine runs", "legacy message fixture = prometheus client_model types generated in 2019 (no ProtoReflect)"],
+    assumptions=["classification stability is explored at the granularity of the yields before each sync.Map access"],
+    tests=[dict(name="TestC11Coop", pkg="c11", race=True, params=dict(max_clients=4),
+                quick=dict(workers=16, checks=400, steps=25, watchdog_s=900),
+                thorough=dict(workers=16, checks=30000, steps=25, watchdog_s=7200, max_clients=16)),
+           dict(name="TestC11Coop", pkg="c11", race=False, mem_gb=16, id="TestC11Coop.norace", params=dict(max_clients=8),
+                quick=dict(workers=8, checks=1500, steps=25, watchdog_s=900),
+                thorough=dict(workers=16, checks=150000, steps=25, watchdog_s=7200, max_clients=64))],
+)
